@@ -228,6 +228,21 @@ chk("C02", "other",
     "Coq proofs of two regenerator kernels; identity oracle by enumeration (category 'other': the verdict for the property rests on enumeration)",
     "DESIGN.md section 4 C02")
 
+chk("C01", "other",
+    "PARTIAL. The per-line block handler (the container/leaf/inline code) is an ORACLE of the model; that it returns, and returns without an "
+    "internal error, for every document is not proved - it is decided by enumeration with a CPU budget, and fails on the pinned tree for about "
+    "1 800 listed inputs in 16 groups (one infinite loop, internal errors around tabs after container markers, '[' before container changes, "
+    "pending link reference definitions in containers). Proved (Coq, closed under the global context) about the main loop around the handler: "
+    "every execution on N lines, whatever the handler answers within the requeue contract, takes at most (2N+2)(N+2)+N+1 steps (strictly "
+    "decreasing measure); every line is handed to the handler with its true line number whatever was requeued, including a requeue from the "
+    "closing step. The model and the contract are tied to the code by observing the loop with sys.setprofile on every document of a link-"
+    "reference-definition vocabulary: the contract must hold and the model's deliveries must equal the observed ones. 'Small polynomial' is a "
+    "measurement: Python call counts on 16 scalable families at n, 2n, 4n (largest exponent observed about 1.9).",
+    "Trusted: Coq kernel + vm_compute, the sys.setprofile monitor, the CPU-time budget mechanism. Oracles: parse_line_for_container_blocks, "
+    "__close_open_blocks, the inline pass.",
+    "Coq proof of the driver loop under a monitored contract; enumeration with CPU budget; scaling measurement (category 'other')",
+    "DESIGN.md section 4 C01")
+
 NOT_YET = {}
 
 
